@@ -79,7 +79,17 @@ Two DIFFERENT changes (call them {pid}-{k1} and {pid}-{k2}) to the library's non
    consumers that block for longer than any constant in the source, TCP peers that never close, firmware versions learnt
    from earlier replies, consecutive events whose clocks are a calendar step apart, rival processes binding the same port
    with SO_REUSEADDR, reply bursts as large as the socket receive queue with stalled debug output, ICMP errors for
-   requests that expect no reply, bind addresses without an IP:
+   requests that expect no reply, bind addresses without an IP, hundreds of concurrent calls to one controller (also under
+   a low limit on open files, also in fresh processes), 32-bit builds of the library, inputs of millions of digits,
+   controller / bind / sender addresses derived from the host's own interfaces and subnets, addresses the host does not own,
+   one argument slice kept and passed again call after call, different argument tuples validated concurrently on one client,
+   listeners restarted while the old one's callback is busy, two listeners on one port number of two local addresses,
+   hundreds of events queued behind a slow callback, discovery before / during / after listening, clients created between
+   parses, fresh processes that use the parsers in every order, a rejected message decoded right before a valid one,
+   field-level encodings written into by the caller, byte-identical consecutive events and replies with in-place edits,
+   replies of every class inside request histories, values made through every constructor, time profiles that start on
+   daylight-saving change days, partial door maps, fractional numbers, weekday ranges, over-long datagrams made of whole
+   frames, empty datagrams, descriptor exhaustion:
    look for what such testing still would NOT reach.
 
 Changes of earlier rounds - do NOT repeat these or close variants of them; find a different mechanism, a different
